@@ -1004,7 +1004,7 @@ func init() {
 		Level: "exploration",
 		Rule: "base documents built through the API: body paragraphs, table cells and nested-table cells whose text (unique token + literals incl. single braces and CJK + 0-3 placeholders) is cut into 1-4 runs of differing formatting, two thirds of the multi-run paragraphs with a run boundary forced inside a placeholder, one boundary in five holding an additional run without text (formatting only; a zero-length piece, also inside a placeholder); paragraph properties, page-break runs, text runs that carry a break themselves, a loop table (header row, {{#each}} row, 0-2 fixed rows, 0-3 items), image placeholders (three names with a picture each; alone in a paragraph or with text before/after, two in one paragraph, several paragraphs in a row, in a table cell directly behind), header and footer with one or two placeholders each (every second case with a header: the package is rewritten so that header and/or footer placeholders are split over two runs at a random offset, also between the two opening braces, then opened), page settings; data for about two thirds of the names incl. XML metacharacters, empty and directive-like values. " +
 			"Oracle on the saved rendered document, read independently and compared with the saved base document: per paragraph the text after reference substitution, the run formatting of every literal character (value characters are free), w:pPr, w:br count; body child sequence, w:sectPr, loop table rows, header/footer text, the stream of text and pictures (identified by their bytes) a reader meets in the body paragraphs and in the picture row equals the base document's with placeholders replaced, untouched parts byte/canonically equal. Non-trivial: >=2 paragraphs compared; distinct = paragraph texts + data.",
-		Cases:         func(t string) int { return tierN(t, 3000, 120000) },
+		Cases:         func(t string) int { return tierN(t, 8000, 120000) },
 		Run:           c18Case,
 		Assume:        []string{"conditionals and paragraph-level loops inside document templates are not generated (the statement names placeholders, table loops and image placeholders)", "formatting of the inserted value and the resulting run segmentation are free"},
 		CaseTimeoutS:  60,
